@@ -849,30 +849,24 @@ impl<K: EnrKey> Enr<K> {
             removed.push(new_enr.content.remove(key.as_ref()));
         }
 
-        // add the new public key
+        let mut inserted = Vec::new();
+        for (key, value) in insert_key_values {
+            let mut out = BytesMut::new();
+            value.encode(&mut out);
+            let value = out.freeze();
+            // the same checks as for a single insert (identity scheme, reserved key types)
+            check_spec_reserved_keys(key.as_ref(), &value)?;
+
+            inserted.push(new_enr.content.insert(key.as_ref().to_vec(), value));
+        }
+
+        // add the new public key (last, so that it cannot be overwritten by the inserts)
         let public_key = enr_key.public();
         let mut pubkey = BytesMut::new();
         public_key.encode().as_ref().encode(&mut pubkey);
         new_enr
             .content
             .insert(public_key.enr_key(), pubkey.freeze());
-
-        let mut inserted = Vec::new();
-        for (key, value) in insert_key_values {
-            // currently only support "v4" identity schemes
-            if key.as_ref() == ID_ENR_KEY && value != ENR_VERSION {
-                return Err(Error::UnsupportedIdentityScheme);
-            }
-            let mut out = BytesMut::new();
-            value.encode(&mut out);
-            let value = out.freeze();
-            // Prevent inserting invalid RLP integers
-            if is_keyof_u16(key.as_ref()) {
-                u16::decode(&mut value.as_ref())?;
-            }
-
-            inserted.push(new_enr.content.insert(key.as_ref().to_vec(), value));
-        }
 
         // increment the sequence number
         new_enr.seq = new_enr
@@ -1241,10 +1235,6 @@ pub(crate) fn digest(b: &[u8]) -> [u8; 32] {
     let mut output = [0_u8; 32];
     output.copy_from_slice(&Keccak256::digest(b));
     output
-}
-
-const fn is_keyof_u16(key: &[u8]) -> bool {
-    matches!(key, TCP_ENR_KEY | TCP6_ENR_KEY | UDP_ENR_KEY | UDP6_ENR_KEY)
 }
 
 fn check_spec_reserved_keys(key: &[u8], mut value: &[u8]) -> Result<(), Error> {
